@@ -39,7 +39,8 @@ def bbox_rules(repo, res):
     for name, spec in (('ixmin', 'math.floor(xmin + 0.5)'), ('ixmax', 'math.ceil(xmax + 0.5)'),
                        ('iymin', 'math.floor(ymin + 0.5)'), ('iymax', 'math.ceil(ymax + 0.5)')):
         expect_stmt(res, 'SPEC', f, f'{name} = ' + nf_text(spec), f'{name} = {spec} (0-indexed pixel-centre convention, exclusive upper index)')
-    SP.returns_match(repo, res, 'SPEC', f'{BB}.from_float', ['cls(ixmin, ixmax, iymin, iymax)'], 'the box in (ixmin, ixmax, iymin, iymax) order')
+    SP.returns_match(repo, res, 'SPEC', f'{BB}.from_float', ['cls(ixmin, ixmax, iymin, iymax)',
+                      'cls(math.floor(xmin + 0.5), math.ceil(xmax + 0.5), math.floor(ymin + 0.5), math.ceil(ymax + 0.5))'], 'the box in (ixmin, ixmax, iymin, iymax) order')
     g = repo.method(BB, 'get_overlap_slices')
     ifs = [n for n in ast.walk(g.node) if isinstance(n, ast.If) and any(isinstance(b, ast.Return) for b in n.body)
            and 'shape[' in unparse(n.test, 0)]
